@@ -1,0 +1,40 @@
+//go:build verif
+
+package deployment
+
+import (
+	"context"
+
+	appsv1 "k8s.io/api/apps/v1"
+	clientset "k8s.io/client-go/kubernetes"
+	appslisters "k8s.io/client-go/listers/apps/v1"
+	"k8s.io/client-go/tools/record"
+	"sigs.k8s.io/controller-runtime/pkg/client"
+	"sigs.k8s.io/controller-runtime/pkg/manager"
+
+	rolloutsv1alpha1 "github.com/openkruise/rollouts/api/v1alpha1"
+)
+
+// VerifNewReconciler builds the advanced Deployment reconciler from injected clients and listers
+// (verification harness only; production builds it from a live kube config in newReconciler).
+func VerifNewReconciler(c client.Client, kube clientset.Interface, dLister appslisters.DeploymentLister,
+	rsLister appslisters.ReplicaSetLister, recorder record.EventRecorder) *ReconcileDeployment {
+	return &ReconcileDeployment{Client: c, controllerFactory: &controllerFactory{
+		client:        kube,
+		eventRecorder: recorder,
+		dLister:       dLister,
+		rsLister:      rsLister,
+	}}
+}
+
+// VerifAdd registers the reconciler with the manager through the production add().
+func VerifAdd(mgr manager.Manager, r *ReconcileDeployment) error {
+	return add(mgr, r)
+}
+
+// VerifSync runs one real syncDeployment for d with the given strategy.
+func VerifSync(r *ReconcileDeployment, d *appsv1.Deployment, strategy rolloutsv1alpha1.DeploymentStrategy) error {
+	f := r.controllerFactory
+	dc := &DeploymentController{client: f.client, eventRecorder: f.eventRecorder, dLister: f.dLister, rsLister: f.rsLister, strategy: strategy}
+	return dc.syncDeployment(context.Background(), d)
+}
